@@ -101,10 +101,10 @@ def run(ctx):
                 strategies = [('main-first', sched.strat_prefer('MCW')), ('starve-writer', sched.strat_prefer('MCW'[::1].replace('W', '') + 'W')),
                               ('starve-compressor', sched.strat_prefer('MWC')), ('writer-first', sched.strat_prefer('WCM')),
                               ('compressor-first', sched.strat_prefer('CWM')), ('alternate', sched.strat_alternate())]
-                n_rand = (6 if ctx.quick else 120)
+                n_rand = (ctx.n(6, 120))
                 strategies += [(f'random{i}', sched.strat_random(ctx.seed * 1000 + i)) for i in range(n_rand)]
                 # systematic: every schedule prefix of length L over {M,C,W} (continued main-last), smallest instance first
-                L = (3 if ctx.quick else 6) if n_sets == 1 else (2 if ctx.quick else 4)
+                L = (ctx.n(3, 6)) if n_sets == 1 else (ctx.n(2, 4))
                 for pre in itertools.product('MCW', repeat=L):
                     strategies.append(('prefix-' + ''.join(pre), sched.strat_scripted('MM' + ''.join(pre), sched.strat_prefer('CWM'))))
                 for cap in (1, 2, 16):
